@@ -502,6 +502,12 @@ class ContractMixin:
             label, rest = self._label(call, f'pre{i}')
             st.assume(self.spec_bool(st, self.sev(st, rest[0], env, c.module)))
             self.narrow_from_requires(st, rest[0], loc, envv, env, c)
+        # assumes(label, expr): an input-validity ASSUMPTION of the unit (not demanded from callers): listed in the trusted base
+        for i, call in enumerate(c.calls('assumes')):
+            label, rest = self._label(call, f'assumed{i}')
+            st.assume(self.spec_bool(st, self.sev(st, rest[0], env, c.module)))
+            self.narrow_from_requires(st, rest[0], loc, envv, env, c)
+            self.assumptions_used.add(f'{c.target} assumes {label}: {ast.unparse(rest[0])[:160]}')
         self.const_facts(st)
         for v in list(loc.values()) + list(envv.values()):
             self.assume_class_invariants(st, v)
@@ -532,6 +538,11 @@ class ContractMixin:
         else:
             outs = self.inline(st, fv, args, None)
         self.stats['paths'] += len(outs)
+        says_never = any(isinstance(e.args[-1], ast.Constant) and e.args[-1].value is False for e in c.calls('ensures'))
+        if c.calls('ensures') and not c.has('never_returns') and not says_never and not any(o.kind == 'ok' for o in outs):
+            # vacuity guard: postconditions were stated but no path returns normally -- they would all hold for nothing
+            self.add_obligation('post', pre, FALSE, 'some_path_returns_normally', None,
+                                detail='the contract states postconditions but no explored path returns normally')
         if os.environ.get('PYVC_DEBUG_OUTS'):
             for o in outs:
                 print('OUT', o.kind, getattr(o.val, 'cls', None), 'feasible=', self.feasible(o.st), [n for n in o.st.notes][-3:])
